@@ -4,6 +4,7 @@
 // scenario has enough margin to be judged at all.  (finddelay/gccphat/delayseq/peakloc: pure, not decided.)
 #include "dsp_util.h"
 #include "simrun.h"
+#include "histcalls.h"
 
 namespace vf {
 namespace {
@@ -58,6 +59,13 @@ Plan gen(uint64_t seed, const std::string& tier) {
     pl.engine = "C18";
     pl.seed = seed;
     pl.tier = tier;
+    if (r.chance(0.12)) {
+        Op h;
+        h.kind = "hist";
+        h.a = {double(r.seed32()), double(r.range(2, 6))};
+        pl.ops.push_back(h);
+        return pl;
+    }
     Op op;
     op.kind = "det";
     const int nh = int(r.logi(16, big ? 512 : 200));
@@ -96,6 +104,17 @@ Plan gen(uint64_t seed, const std::string& tier) {
 
 Result exec(const Plan& pl) {
     Result res;
+    if (pl.ops.size() == 1 && pl.ops[0].kind == "hist" && pl.ops[0].a.size() >= 2) {
+        // call histories of finddelay / gccphat / xcorr / delayseq: history independence only (their accuracy is not decided here)
+        run_history_calls("C18", HF_DELAY, uint32_t(pl.ops[0].iarg(0)), int(pl.ops[0].iarg(1)), res);
+        res.sample = fmt("history of %lld delay-estimator calls", static_cast<long long>(pl.ops[0].iarg(1)));
+        if (res.ok) {
+            Hash hh;
+            hh.u64(pl.ops[0].iarg(0) % 64);
+            res.sigs.push_back(hh.h ^ 0x18);
+        }
+        return res;
+    }
     if (pl.ops.size() != 1 || pl.ops[0].kind != "det" || pl.ops[0].a.size() < NARGS) {
         res.invalid = true;
         return res;
